@@ -51,6 +51,15 @@ package outbound
 //@   let isMin() = policy.Policy == consts.DialerSelectionPolicy_MinLastLatency || policy.Policy == consts.DialerSelectionPolicy_MinAverage10Latencies || policy.Policy == consts.DialerSelectionPolicy_MinMovingAverageLatencies
 //@   let isRand() = policy.Policy == consts.DialerSelectionPolicy_Random
 //@   requires networkType != nil && state != nil
+//@   at call NetworkType).Index#1 assert deref(a0) == networkTypes[$iter]
+//@   at call NetworkType).Index#2 assert deref(a0) == networkTypes[$iter]
+//@   ghostfn idxv(i int) int
+//@   at call NetworkType).Index#1 assume-after result == idxv($iter)
+//@   at call NetworkType).Index#2 assume-after result == idxv($iter)
+//@   at call GetRandExcluded#1 assert a0 == setOf(idxv($iter)) && a1 == excluded
+//@   at call GetMinLatency#1 assert a0 == setOf(idxv($iter)) && a1 == excluded
+//@   at call preferAlternateSelectionNetworkType#1 assert deref(a1) == networkTypes[$iter]
+//@   at call preferAlternateSelectionNetworkType#3 assert deref(a1) == networkTypes[$iter]
 //@   requires isRand() || isMin() ==> (forall k int {setOf(k)} :: 0 <= k && k < 8 ==> setOf(k) != nil && dialer.wfSet(setOf(k)))
 //@   ensures len(g.Dialers) > 0 && policy.Policy == consts.DialerSelectionPolicy_Fixed && 0 <= policy.FixedIndex && policy.FixedIndex < len(g.Dialers) ==> err == nil && d == g.Dialers[policy.FixedIndex]
 //@   ensures policy.Policy == consts.DialerSelectionPolicy_Fixed && (policy.FixedIndex < 0 || policy.FixedIndex >= len(g.Dialers)) ==> err != nil
